@@ -326,6 +326,9 @@ func run(c *hlib.Ctx) {
 	runFace(c, n/3+1)
 	runFaceRun(c, n+1)
 	runProfile(c, n/6+1)
+	// new kinds go LAST: the random stream of the families above stays what it was
+	runNearSide(c, n/8+1)
+	runOffMesh(c, n/20+1)
 }
 
 // pick a polygon family
